@@ -36,6 +36,12 @@ func gen(t *rapid.T) Case {
 			src += "\n" + genShape(t)
 		}
 	}
+	if rapid.Uint64().Draw(t, "large")%400 == 7 {
+		// a large flat program: thousands of ordinary statements, tens of thousands of nodes
+		line := rapid.SampledFrom([]string{"total = add(total, items[i].price)", "x = f(a, b) + g(c)[0]", "m[k] = {\"a\": [1, 2], \"b\": h(x)}", "if a { b = c.d(1) } else { e = -f }", "v, ok = <-ch"}).Draw(t, "line")
+		n := rapid.SampledFrom([]int{1200, 2500, 4000}).Draw(t, "lines")
+		src = strings.Repeat(line+"\n", n) + src
+	}
 	return Case{Src: src, Abort: rapid.IntRange(0, 400).Draw(t, "abort")}
 }
 
